@@ -19,10 +19,21 @@ def handleBpki : List String → Option String
     match parseHex payload, parseHex pwd, parseHex salt, parseNat iter with
     | some x, some pwd, some salt, some iter =>
       if salt.length ≠ 8 then some "bad-op" else
-      let r := pkiWrap BC (if op = "pkwrap" then .privkey else .share) x pwd salt iter
-      some (showWrap r)
+      -- as the harness: length query first, then the call; announced and written lengths must agree
+      let kind : PkiKind := if op = "pkwrap" then .privkey else .share
+      let q := pkiWrapLen kind x iter
+      if q.1 ≠ .ok then some s!"{q.1.code}" else
+      let r := pkiWrap BC kind x pwd salt iter
+      if r.1 = .ok ∧ r.2.length ≠ q.2 then some "9999" else some (showWrap r)
     | _, _, _, _ => some "bad-op"
   | [op, epki, pwd] =>
+    if op = "pkwraplen" ∨ op = "shwraplen" then
+      match parseHex epki, parseNat pwd with
+      | some x, some iter =>
+        let q := pkiWrapLen (if op = "pkwraplen" then .privkey else .share) x iter
+        some (if q.1 = .ok then s!"0 {q.2}" else s!"{q.1.code}")
+      | _, _ => some "bad-op"
+    else
     if op ≠ "pkunwrap" ∧ op ≠ "shunwrap" then none else
     match parseHex epki, parseHex pwd with
     | some epki, some pwd => some (showUnwrap (if op = "pkunwrap" then .privkey else .share) epki pwd)
